@@ -333,7 +333,42 @@ Fixpoint outer_free (t : tree) : bool :=
   end.
 Definition admissible (so : bool) (t : tree) : bool := so || outer_free t.
 
+(* the legs of the intermediate on S, from the definition: the surviving indices in
+   increasing order with their multiplicity on S *)
+Definition legs_of (S : N) : legs :=
+  flat_map (fun j => if surv S j then [(j, cnt S j)] else []) (seq 0 (length app)).
+Definition cnt_all (j : nat) : nat :=
+  fold_right (fun i a => leg_count j (nth i nodes []) + a) 0 (seq 0 (length nodes)).
+
+(* hypotheses of the theorems, as an executable check:
+   - every leaf's legs are exactly the definition's legs of that leaf: strictly increasing
+     indices (no repeated index within a tensor), every index known to `app`, and no index
+     already exhausted on the leaf (none confined to one tensor and absent from the output);
+   - appearances counts at least the occurrences on the tensors;
+   - dimensions are non-negative *)
+Definition wf_procb : bool :=
+  forallb (fun i => eqb (nth i nodes []) (legs_of (bit i))) (seq 0 (length nodes))
+  && forallb (fun j => cnt_all j <=? appn app j) (seq 0 (length app))
+  && forallb (fun j => (0 <=? szn szs j)%Z) (seq 0 (length app)).
+
 End Spec.
+
+(* the factor of combo / limit is non-negative *)
+Definition obj_ok (o : objective) : Prop :=
+  match o with OCombo f | OLimit f => (0 <= f)%Z | _ => True end.
+
+(* t is a binary contraction tree over exactly the leaf set S (bitmask), leaves < n *)
+Inductive vtree (n : nat) : tree -> N -> Prop :=
+| vt_leaf i : i < n -> vtree n (Leaf i) (bit i)
+| vt_node l r Sl Sr : vtree n l Sl -> vtree n r Sr -> N.land Sl Sr = 0%N ->
+                      vtree n (Node l r) (N.lor Sl Sr).
+
+(* the bit path the DP stores for a tree: children first, then the pair *)
+Fixpoint bitpath (t : tree) : list (N * N) :=
+  match t with
+  | Leaf _ => []
+  | Node l r => bitpath l ++ bitpath r ++ [(mask l, mask r)]
+  end.
 
 (* ------------------------------------------------------------------ *)
 (* all binary trees over a list of distinct leaves, up to swapping children:
